@@ -723,28 +723,31 @@ def gen_source(rng, avoid):
         rec = ", ".join(f"{n} {'+' if st > 0 else '-'} {abs(st)}" for n, st in zip(names, strides))
         params = ", ".join(f"{n}: int" for n in names)
         then_break = r.chance(1, 2)
-        loop_part = "{\n      " + "\n      ".join(body) + f"\n      Main.w{w}({rec}, n, {acc_next})\n    }}"
+        lit_bound = None if r.chance(1, 3) else (r.range(-4, 12) if strides[gi] > 0 else r.range(-12, 4))
+        nparam, narg, bnd = ("n: int, ", "n, ", "n") if lit_bound is None else ("", "", str(lit_bound))
+        loop_part = "{\n      " + "\n      ".join(body) + f"\n      Main.w{w}({rec}, {narg}{acc_next})\n    }}"
         if then_break:
-            text = f"  function w{w}({params}, n: int, acc: int): int =\n    if {names[gi]} {brk} n {{ acc }} else {loop_part}\n"
+            text = f"  function w{w}({params}, {nparam}acc: int): int =\n    if {names[gi]} {brk} {bnd} {{ acc }} else {loop_part}\n"
         else:
-            text = f"  function w{w}({params}, n: int, acc: int): int =\n    if {names[gi]} {cont} n {loop_part} else {{ acc }}\n"
+            text = f"  function w{w}({params}, {nparam}acc: int): int =\n    if {names[gi]} {cont} {bnd} {loop_part} else {{ acc }}\n"
         fns.append(text)
-        wsig.append((k, gi, strides[gi]))
+        wsig.append((k, gi, strides[gi], lit_bound))
     # run(a, b): distinct, partly symbolic starting values
     lines = []
-    for w, (k, gi, gst) in enumerate(wsig):
-        starts = []
-        pool = r.shuffle(["a", "b", "a + 7", "b - 3", "b + 11", str(r.range(-6, 6)), "a * 2"])
-        for t in range(k):
-            starts.append(pool[t])
+    for w, (k, gi, gst, lit_bound) in enumerate(wsig):
+        # the guarded counter starts from a small value (literal or `a`), the bound is a literal: the real
+        # lowering turns a parameter bound into a loop variable, which switches loop optimisation off
+        pool = r.shuffle(["b", "b - 3", "b + 11", "a * 2", "a + b", str(r.range(-6, 6)), "b * 3"])
+        starts = [pool[t] for t in range(k)]
+        starts[gi] = r.pick(["a", "a + 7", str(r.range(-6, 6)), "a - 2"])
         trip = r.range(0, 8)
-        bound = f"({starts[gi]}) + {gst * trip}".replace("+ -", "- ")
-        lines.append(f"let r{w} = Main.w{w}({', '.join(starts)}, {bound}, {r.range(-2, 2)});")
+        barg = "" if lit_bound is not None else f"({starts[gi]}) + {gst * trip}, ".replace("+ -", "- ")
+        lines.append(f"let r{w} = Main.w{w}({', '.join(starts)}, {barg}{r.range(-2, 2)});")
         lines.append(f"let _ = Process.println(Str.fromInt(r{w}));")
     ret = " + ".join(f"r{w}" for w in range(nw))
     fns.append("  function run(a: int, b: int): int = {\n    " + "\n    ".join(lines) + f"\n    {ret}\n  }}\n")
     calls = []
-    grid = [(0, 0), (1, 2), (-1, 3), (7, -8), (100, 5), (-50, 40), (1000000, -7), (3, 2000000)]
+    grid = [(0, 0), (1, 2), (-1, 3), (7, -8), (60, 5), (-40, 40), (-7, 1000000), (3, 2000000), (5, -2147483647)]
     for a, b in r.shuffle(grid)[:4]:
         calls.append(f"let _ = Process.println(Str.fromInt(Main.run({a}, {b})));")
     fns.append("  function main(): unit = {\n    " + "\n    ".join(calls) + "\n  }\n")
